@@ -313,7 +313,7 @@ def render_nlri(o):
     for name in ('json', 'json-compact'):
         if not out[name].startswith('<'):
             try:
-                json.loads('[ ' + out[name] + ' ]')
+                core.strict_json('[ ' + out[name] + ' ]')
             except ValueError as e:
                 bad.append((f'json-invalid:{name}', f'[ {out[name][:200]} ] is not JSON: {e}'))
     return out, bad
@@ -334,7 +334,7 @@ def render_attr(a):
     for name in ('json', 'json-generic'):
         if not out[name].startswith('<'):
             try:
-                json.loads('{ ' + out[name] + ' }')
+                core.strict_json('{ ' + out[name] + ' }')
             except ValueError as e:
                 bad.append((f'json-invalid:{name}', f'{{ {out[name][:200]} }} is not JSON: {e}'))
     return out, bad
